@@ -73,7 +73,7 @@ func serviceSpecs(c *Ctx) []*spec.Spec {
 				has = true
 			}
 		}
-		if has && hasTag(s, "valid") {
+		if has && hasTag(s, "valid") && !hasTag(s, "genonly") {
 			out = append(out, s)
 		}
 	}
@@ -83,7 +83,12 @@ func serviceSpecs(c *Ctx) []*spec.Spec {
 // C01: Go client -> Go server delivers exact request and response.
 func C01(c *Ctx, r *report.Run) error {
 	r.Rule = "for every RPC of every unit (REST verbs, path/query/body placement, codec units as request and response types) x content type {json, x-protobuf}: every enumerated request value (URL-bound fields non-empty) with a populated scripted response, and every enumerated response value with the base request, goes generated client -> in-process wire (request/response serialised to bytes and re-parsed) -> generated server -> recording handler; non-trivial = value has >=1 non-default field; distinct = (unit, rpc, content type, outcome)"
-	specs := serviceSpecs(c)
+	var specs []*spec.Spec
+	for _, s := range serviceSpecs(c) {
+		if !hasTag(s, "ctx") { // nesting contexts of annotated messages are C04/C05's subject
+			specs = append(specs, s)
+		}
+	}
 	r.Programs = len(specs)
 	w, err := ws.Build(c.Bins, specs, ws.Options{Variant: ws.HC, Tag: "rtHC", Harness: true})
 	if err != nil {
@@ -94,5 +99,26 @@ func C01(c *Ctx, r *report.Run) error {
 		return err
 	}
 	r.States, r.Transitions, r.Traces = r.Evaluations, r.Evaluations, r.Evaluations
+	return nil
+}
+
+func init() { Registry["C09"] = C09 }
+
+// C09: requests are dispatched only when every required header is present and valid.
+func C09(c *Ctx, r *report.Run) error {
+	r.Rule = "for every RPC of every unit with header declarations (service, method, both, override of the same name; types string/integer/number/boolean/array; formats uuid/email/date-time/date/time): every must-accept exemplar of M-hdr per header, and every non-empty subset (<=4 headers) of the required headers made bad in every way {absent, empty, each must-reject exemplar} x body {valid, malformed}, sent as raw requests to the generated Go server; oracle: 400 + violation set == offending header names + handler not run + zero body reads before the verdict, resp. not rejected for the header; distinct = (unit, rpc, outcome)"
+	specs := serviceSpecs(c)
+	r.Programs = len(specs)
+	w, err := ws.Build(c.Bins, specs, ws.Options{Variant: ws.H, Tag: "rtH2", Harness: true})
+	if err != nil {
+		return err
+	}
+	units := blocked(r, w, "C09")
+	if err := RunHarness(c, w, r, "c09", units, nil, specIndex(w)); err != nil {
+		return err
+	}
+	r.States, r.Transitions, r.Traces = r.Evaluations, r.Evaluations, r.Evaluations
+	r.Assumptions = []string{"M-hdr exemplars: must-accept values are valid per the OpenAPI type/format published for the header (RFC 3339 full-time for format time), must-reject values are not well-formed; values in neither set are not judged",
+		"only the Go server is exercised here; the TS server's header gate is part of C08's bridge run"}
 	return nil
 }
